@@ -31,6 +31,7 @@ type Op struct {
 	Path   string `json:"path"`
 	To     string `json:"to,omitempty"`
 	Binary bool   `json:"binary,omitempty"`
+	Exec   bool   `json:"exec,omitempty"` // add only: the file is executable (mode 100755); edits and renames keep the mode
 	Lines  int    `json:"lines,omitempty"`
 	DropAt int    `json:"drop_at,omitempty"`
 	Drop   int    `json:"drop,omitempty"`
@@ -62,6 +63,15 @@ type History struct {
 type File struct {
 	Lines  []string
 	Binary bool
+	Exec   bool
+}
+
+// ModeString is the file mode as git prints it in --summary lines.
+func (f *File) ModeString() string {
+	if f != nil && f.Exec {
+		return "100755"
+	}
+	return "100644"
 }
 
 func (f *File) Bytes() []byte {
@@ -98,6 +108,7 @@ type Entry struct {
 	Deleted int
 	Binary  bool
 	Score   int // rename similarity percent as printed
+	Exec    bool // the created / deleted file is executable
 }
 
 // Printed is the path column of the numstat line.
@@ -207,7 +218,7 @@ func (s *state) edit(f *File, op Op) *File {
 	out = append(out, lines[:ins]...)
 	out = append(out, fresh...)
 	out = append(out, lines[ins:]...)
-	return &File{Lines: out, Binary: f.Binary}
+	return &File{Lines: out, Binary: f.Binary, Exec: f.Exec}
 }
 
 // conflicts reports whether path p cannot be added to tree t (occupied, or a directory of
@@ -287,7 +298,7 @@ func (s *state) apply(c Commit) error {
 				if conflicts(after, op.Path) || op.Lines < 1 {
 					return fmt.Errorf("commit %d: cannot add %q", idx, op.Path)
 				}
-				after[op.Path] = &File{Lines: s.newLines(op.Lines, op.Binary), Binary: op.Binary}
+				after[op.Path] = &File{Lines: s.newLines(op.Lines, op.Binary), Binary: op.Binary, Exec: op.Exec}
 			case "modify":
 				f, ok := after[op.Path]
 				if !ok {
@@ -525,7 +536,7 @@ func diffTrees(before, after Tree) ([]Entry, error) {
 		if _, ok := usedSrc[d]; ok {
 			continue
 		}
-		e := Entry{Kind: 'D', Old: d}
+		e := Entry{Kind: 'D', Old: d, Exec: before[d].Exec}
 		fillCounts(&e, before[d], &File{})
 		out = append(out, e)
 	}
@@ -536,7 +547,7 @@ func diffTrees(before, after Tree) ([]Entry, error) {
 			out = append(out, e)
 			continue
 		}
-		e := Entry{Kind: 'A', New: a}
+		e := Entry{Kind: 'A', New: a, Exec: after[a].Exec}
 		fillCounts(&e, &File{}, after[a])
 		out = append(out, e)
 	}
@@ -677,9 +688,9 @@ func Emulate(sim *Sim, hashes []string) string {
 		for _, e := range c.Entries {
 			switch e.Kind {
 			case 'A':
-				fmt.Fprintf(&sb, " create mode 100644 %s\n", e.New)
+				fmt.Fprintf(&sb, " create mode %s %s\n", (&File{Exec: e.Exec}).ModeString(), e.New)
 			case 'D':
-				fmt.Fprintf(&sb, " delete mode 100644 %s\n", e.Old)
+				fmt.Fprintf(&sb, " delete mode %s %s\n", (&File{Exec: e.Exec}).ModeString(), e.Old)
 			case 'R':
 				fmt.Fprintf(&sb, " rename %s (%d%%)\n", e.Printed(), e.Score)
 			}
